@@ -1,4 +1,488 @@
-/- C18 — model and specification (stub; see HACKING.md) -/
+/-
+  C18 — the CIF export states the same structure as the model.
+
+  Model of
+    SymmetryElement.to_cif / _as_text / _as_fraction   (misc/dsrmath.py)   -> `compToCif`, `toCif`
+        (how a translation is printed is REGENERATED from the source: `Extracted.C18.opMode`;
+         0 = the text replacement on `str(float)` of the original code, 1 = `Fraction(t).limit_denominator(N)`)
+    fractions.Fraction.limit_denominator / __str__     (CPython)           -> `limitDen`, `fracStr`
+    CifFile._cif_dict, _cell_data, _misc_dict           (cif/cif_write.py)  -> `cifDict`
+    string.Template.substitute on cif_template.tmpl                         -> `substitute`, `cifItems`
+        (the template is REGENERATED: `Extracted.C18.templatePairs`, `templateTags`)
+    CifFile._atoms_data / _adp_data                      (cif/cif_write.py)  -> `atomLoop`, `adpLoop`
+    TEMP / ZERR handling of Shelxfile._parse_cards       (shelx/shelx.py)    -> `tempKOf`, `zOf`
+  Specification (code independent):
+    `denoteComp`, `denoteCif`  — a reader of CIF `x,y,z` strings with exact rational translations
+    `specItems`                — data name ↦ value of the structure model
+    `specAtomLoop`, `specAdpLoop`
+-/
+import ShelxModel.Extracted.C18
+
 namespace Shelx.C18
+
+/-! ## (a) symmetry operators -/
+
+/-- one row of an operator: coefficients of x, y, z and the translation -/
+structure Comp where
+  cx : Int
+  cy : Int
+  cz : Int
+  t : Rat
+deriving DecidableEq, Repr
+
+structure Op where
+  r1 : Comp
+  r2 : Comp
+  r3 : Comp
+deriving DecidableEq, Repr
+
+/-! ### Python text helpers -/
+
+def digitChar (d : Nat) : Char := Char.ofNat (48 + d)
+
+def natStrAux : Nat → Nat → List Char → List Char
+  | 0, _, acc => acc
+  | fuel + 1, n, acc =>
+    let acc' := digitChar (n % 10) :: acc
+    if n / 10 = 0 then acc' else natStrAux fuel (n / 10) acc'
+
+/-- `str(n)` for a natural number -/
+def natStr (n : Nat) : List Char := natStrAux (n + 1) n []
+
+def intStr (i : Int) : List Char := if i < 0 then '-' :: natStr i.natAbs else natStr i.natAbs
+
+/-- `str(Fraction)`: `'n'` if the denominator is 1, else `'n/d'` -/
+def fracStr (r : Rat) : List Char :=
+  if r.den = 1 then intStr r.num else intStr r.num ++ '/' :: natStr r.den
+
+def lowerC (c : Char) : Char := if 65 ≤ c.toNat ∧ c.toNat ≤ 90 then Char.ofNat (c.toNat + 32) else c
+
+def lower (s : List Char) : List Char := s.map lowerC
+
+def stripPrefix? : List Char → List Char → Option (List Char)
+  | [], s => some s
+  | _ :: _, [] => none
+  | p :: ps, c :: cs => if p = c then stripPrefix? ps cs else none
+
+def pyReplaceF (pat rep : List Char) : Nat → List Char → Option (List Char)
+  | 0, _ => none
+  | _ + 1, [] => some []
+  | f + 1, c :: cs =>
+    match stripPrefix? pat (c :: cs) with
+    | some rest => (pyReplaceF pat rep f rest).map (rep ++ ·)
+    | none => (pyReplaceF pat rep f cs).map (c :: ·)
+
+/-- `s.replace(pat, rep)` for a non-empty pattern (left to right, non-overlapping) -/
+def pyReplace (pat rep s : List Char) : Option (List Char) :=
+  if pat = [] then none else pyReplaceF pat rep (s.length + 1) s
+
+/-- `_replace_float_values`: the replacements applied in order -/
+def applyRepl (repl : List (List Char × List Char)) (s : List Char) : Option (List Char) :=
+  repl.foldl (fun acc pr => acc.bind (pyReplace pr.1 pr.2)) (some s)
+
+/-! ### `Fraction.limit_denominator` (CPython 3.12) -/
+
+/-- the `while True` loop; returns `(p0, q0, p1, q1, d)` at the `break`; `none` = fuel exhausted -/
+def ldLoop (N : Int) : Nat → Int → Int → Int → Int → Int → Int → Option (Int × Int × Int × Int × Int)
+  | 0, _, _, _, _, _, _ => none
+  | fuel + 1, p0, q0, p1, q1, n, d =>
+    let a := Int.fdiv n d
+    let q2 := q0 + a * q1
+    if q2 > N then some (p0, q0, p1, q1, d)
+    else ldLoop N fuel p1 q1 (p0 + a * p1) q2 d (n - a * d)
+
+def limitDen (N : Nat) (x : Rat) : Option Rat :=
+  if x.den ≤ N then some x
+  else
+    match ldLoop N (2 * Nat.log2 x.den + 4) 0 1 1 0 x.num x.den with
+    | none => none
+    | some (p0, q0, p1, q1, d) =>
+      let k := Int.fdiv ((N : Int) - q0) q1
+      if 2 * d * (q0 + k * q1) ≤ x.den then some (mkRat p1 q1.toNat)
+      else some (mkRat (p0 + k * p1) (q0 + k * q1).toNat)
+
+/-! ### model: `to_cif` -/
+
+/-- one axis of `_as_text`/`to_shelxl`: `'-X'`, `'+X'` or nothing -/
+def term (coef : Int) (axis : Char) : List Char :=
+  if coef < 0 then ['-', axis] else if coef > 0 then ['+', axis] else []
+
+def termsOf (c : Comp) : List Char := term c.cx 'X' ++ term c.cy 'Y' ++ term c.cz 'Z'
+
+/-- original code: `_replace_float_values(to_shelxl()).lower()`; `ts` is Python's `str(trans[i])` -/
+def compLegacy (repl : List (List Char × List Char)) (ts : List Char) (c : Comp) : Option (List Char) :=
+  (applyRepl repl ((if c.t = 0 then [] else ts) ++ termsOf c)).map lower
+
+/-- repaired code: the translation printed as `str(Fraction(t).limit_denominator(N))` -/
+def compFrac (N : Nat) (c : Comp) : Option (List Char) :=
+  if c.t = 0 then some (lower (termsOf c))
+  else (limitDen N c.t).map fun r => lower (fracStr r ++ termsOf c)
+
+/-- `mode` is read off the source on every run (`Extracted.C18.opMode`) -/
+def compToCifWith (mode N : Nat) (repl : List (List Char × List Char)) (ts : List Char) (c : Comp) : Option (List Char) :=
+  if mode = 1 then compFrac N c else if mode = 0 then compLegacy repl ts c else none
+
+def compToCif (ts : List Char) (c : Comp) : Option (List Char) :=
+  compToCifWith Extracted.C18.opMode Extracted.C18.fracLimit Extracted.C18.replList ts c
+
+/-- `', '.join(lines)` -/
+def join3 (a b c : List Char) : List Char := a ++ ',' :: ' ' :: (b ++ ',' :: ' ' :: c)
+
+/-- `SymmetryElement.to_cif`; `ts` are Python's `str()` of the three translations (used by the original code only) -/
+def toCif (ts : List Char × List Char × List Char) (op : Op) : Option (List Char) := do
+  let a ← compToCif ts.1 op.r1
+  let b ← compToCif ts.2.1 op.r2
+  let c ← compToCif ts.2.2 op.r3
+  return join3 a b c
+
+/-- Python's `str(k/12)` for the translations of the quantifier (k = -24 … 24); validated against CPython by
+    the harness on every run. Only the original (text replacement) code reads it. -/
+def reprTable : List (Int × String) := [
+  (-24, "-2.0"), (-23, "-1.9166666666666667"), (-22, "-1.8333333333333333"), (-21, "-1.75"),
+  (-20, "-1.6666666666666667"), (-19, "-1.5833333333333333"), (-18, "-1.5"), (-17, "-1.4166666666666667"),
+  (-16, "-1.3333333333333333"), (-15, "-1.25"), (-14, "-1.1666666666666667"), (-13, "-1.0833333333333333"),
+  (-12, "-1.0"), (-11, "-0.9166666666666666"), (-10, "-0.8333333333333334"), (-9, "-0.75"),
+  (-8, "-0.6666666666666666"), (-7, "-0.5833333333333334"), (-6, "-0.5"), (-5, "-0.4166666666666667"),
+  (-4, "-0.3333333333333333"), (-3, "-0.25"), (-2, "-0.16666666666666666"), (-1, "-0.08333333333333333"),
+  (0, "0.0"), (1, "0.08333333333333333"), (2, "0.16666666666666666"), (3, "0.25"), (4, "0.3333333333333333"),
+  (5, "0.4166666666666667"), (6, "0.5"), (7, "0.5833333333333334"), (8, "0.6666666666666666"), (9, "0.75"),
+  (10, "0.8333333333333334"), (11, "0.9166666666666666"), (12, "1.0"), (13, "1.0833333333333333"),
+  (14, "1.1666666666666667"), (15, "1.25"), (16, "1.3333333333333333"), (17, "1.4166666666666667"), (18, "1.5"),
+  (19, "1.5833333333333333"), (20, "1.6666666666666667"), (21, "1.75"), (22, "1.8333333333333333"),
+  (23, "1.9166666666666667"), (24, "2.0")]
+
+/-- the doubles nearest to k/12 as exact fractions `(k, numerator, denominator)` (`(k/12).as_integer_ratio()`);
+    validated against CPython by the harness on every run -/
+def doubleTable : List (Int × Int × Nat) := [
+  (-24, -2, 1), (-23, -8631899285793451, 4503599627370496), (-22, -8256599316845909, 4503599627370496),
+  (-21, -7, 4), (-20, -7505999378950827, 4503599627370496), (-19, -7130699410003285, 4503599627370496),
+  (-18, -3, 2), (-17, -6380099472108203, 4503599627370496), (-16, -6004799503160661, 4503599627370496),
+  (-15, -5, 4), (-14, -5254199565265579, 4503599627370496), (-13, -4878899596318037, 4503599627370496),
+  (-12, -1, 1), (-11, -8256599316845909, 9007199254740992), (-10, -7505999378950827, 9007199254740992),
+  (-9, -3, 4), (-8, -6004799503160661, 9007199254740992), (-7, -5254199565265579, 9007199254740992),
+  (-6, -1, 2), (-5, -7505999378950827, 18014398509481984), (-4, -6004799503160661, 18014398509481984),
+  (-3, -1, 4), (-2, -6004799503160661, 36028797018963968), (-1, -6004799503160661, 72057594037927936),
+  (0, 0, 1), (1, 6004799503160661, 72057594037927936), (2, 6004799503160661, 36028797018963968),
+  (3, 1, 4), (4, 6004799503160661, 18014398509481984), (5, 7505999378950827, 18014398509481984),
+  (6, 1, 2), (7, 5254199565265579, 9007199254740992), (8, 6004799503160661, 9007199254740992),
+  (9, 3, 4), (10, 7505999378950827, 9007199254740992), (11, 8256599316845909, 9007199254740992),
+  (12, 1, 1), (13, 4878899596318037, 4503599627370496), (14, 5254199565265579, 4503599627370496),
+  (15, 5, 4), (16, 6004799503160661, 4503599627370496), (17, 6380099472108203, 4503599627370496),
+  (18, 3, 2), (19, 7130699410003285, 4503599627370496), (20, 7505999378950827, 4503599627370496),
+  (21, 7, 4), (22, 8256599316845909, 4503599627370496), (23, 8631899285793451, 4503599627370496),
+  (24, 2, 1)]
+
+def reprOf (k : Int) : List Char :=
+  match reprTable.find? (·.1 = k) with
+  | some p => p.2.toList
+  | none => []
+
+/-! ### specification: what a CIF `x,y,z` string denotes -/
+
+/-- split at the signs: (characters before the first sign, signed chunks) -/
+def splitTerms : List Char → List Char × List (Int × List Char)
+  | [] => ([], [])
+  | c :: s =>
+    let br := splitTerms s
+    if c = '+' then ([], (1, br.1) :: br.2)
+    else if c = '-' then ([], (-1, br.1) :: br.2)
+    else (c :: br.1, br.2)
+
+def isDigit (c : Char) : Bool := 48 ≤ c.toNat && c.toNat ≤ 57
+
+/-- decimal numeral without sign -/
+def parseNat (s : List Char) : Option Nat :=
+  if s = [] ∨ ¬ s.all isDigit then none else some (s.foldl (fun acc c => acc * 10 + (c.toNat - 48)) 0)
+
+def splitAt1 (sep : Char) : List Char → List Char × Option (List Char)
+  | [] => ([], none)
+  | c :: s =>
+    if c = sep then ([], some s)
+    else let r := splitAt1 sep s; (c :: r.1, r.2)
+
+/-- `12`, `0.25`, `.5`, `1/3` -/
+def parseNumber (s : List Char) : Option Rat :=
+  match splitAt1 '/' s with
+  | (a, some b) =>
+    match parseNat a, parseNat b with
+    | some n, some d => if d = 0 then none else some (mkRat n d)
+    | _, _ => none
+  | (a, none) =>
+    match splitAt1 '.' a with
+    | (i, none) => (parseNat i).map fun n => (n : Rat)
+    | (i, some f) =>
+      match (if i = [] then some 0 else parseNat i), parseNat f with
+      | some n, some m => some ((n : Rat) + mkRat m (10 ^ f.length))
+      | _, _ => none
+
+/-- add one signed chunk to the row -/
+def addTerm (acc : Comp) (sg : Int) (body : List Char) : Option Comp :=
+  match body with
+  | ['x'] => some { acc with cx := acc.cx + sg }
+  | ['y'] => some { acc with cy := acc.cy + sg }
+  | ['z'] => some { acc with cz := acc.cz + sg }
+  | _ => (parseNumber body).map fun v => { acc with t := acc.t + sg * v }
+
+/-- one component of a CIF symmetry operator: blanks ignored, case ignored, a sum of signed terms each of
+    which is `x`, `y`, `z` or an unsigned number `n`, `n/d`, `n.ddd`; `none` = not such a string -/
+def denoteComp (s : List Char) : Option Comp :=
+  let s' := lower (s.filter (· ≠ ' '))
+  let br := splitTerms s'
+  let chunks := if br.1 = [] then br.2 else (1, br.1) :: br.2
+  if chunks = [] then none
+  else chunks.foldl (fun acc ch => acc.bind fun a => addTerm a ch.1 ch.2) (some ⟨0, 0, 0, 0⟩)
+
+def splitComma : List Char → List (List Char)
+  | [] => [[]]
+  | c :: s =>
+    match splitComma s with
+    | [] => [[c]]      -- unreachable: splitComma never returns []
+    | h :: t => if c = ',' then [] :: h :: t else (c :: h) :: t
+
+def denoteCif (s : List Char) : Option Op :=
+  match splitComma s with
+  | [a, b, c] => do
+    let a' ← denoteComp a
+    let b' ← denoteComp b
+    let c' ← denoteComp c
+    return ⟨a', b', c'⟩
+  | _ => none
+
+/-! ### the domain of the quantifier (used by the property theorems) -/
+
+/-- the translations of the quantifier: k/12 for k = -24 … 24 -/
+def ks : List Int := (List.range 49).map (fun (i : Nat) => (i : Int) - 24)
+
+def sg : List Int := [-1, 0, 1]
+
+def compOfK (k cx cy cz : Int) : Comp := ⟨cx, cy, cz, (k : Rat) / 12⟩
+
+/-- the printed row exists, contains no comma and denotes the row -/
+def compGood (ts : List Char) (c : Comp) : Bool :=
+  match compToCif ts c with
+  | some s => !s.contains ',' && decide (denoteComp s = some c)
+  | none => false
+
+/-! ## (b) the data items -/
+
+inductive PyErr
+  | AttributeError | IndexError | KeyError | TypeError
+deriving DecidableEq, Repr
+
+inductive Val
+  | num (r : Rat)
+  | str (s : String)
+  | unknown            -- the text `?`
+deriving DecidableEq, Repr
+
+def roundHalfEven (x : Rat) : Int :=
+  let f := x.floor
+  let r := x - f
+  if r < 1/2 then f else if r > 1/2 then f + 1 else if f % 2 = 0 then f else f + 1
+
+/-- Python `round(x, 3)` on the exact value -/
+def round3 (x : Rat) : Rat := (roundHalfEven (x * 1000) : Rat) / 1000
+
+structure Size where
+  dx : Rat
+  dy : Rat
+  dz : Rat
+deriving DecidableEq, Repr
+
+/-- what the parsed file holds, as far as the CIF writer reads it (`none` = attribute is `None`) -/
+structure Src where
+  titl : List String            -- `titl.split()`
+  sumFormula : String           -- `sum_formula`
+  formulaWeight : Rat
+  wavelength : Rat              -- CELL λ
+  a : Rat
+  b : Rat
+  c : Rat
+  alpha : Rat
+  beta : Rat
+  gamma : Rat
+  volume : Rat
+  zerr : Option Rat             -- ZERR Z …
+  temp : Option Rat             -- TEMP t   (°C)
+  size : Option Size            -- SIZE dx dy dz
+  r1 : Option Rat
+  wr2 : Option Rat
+  goof : Option Rat
+  spaceGroup : Option String
+deriving Repr
+
+/-- shelx.py: `self.Z = self.zerr.Z; if self.Z < 1: self.Z = 1` (default 1) -/
+def zOf (zerr : Option Rat) : Rat :=
+  match zerr with
+  | none => 1
+  | some z => if z < 1 then 1 else z
+
+/-- shelx.py: `temp_in_kelvin` is 0.0 unless a TEMP instruction sets it to `temp + 273.15` -/
+def tempKOf (temp : Option Rat) : Rat :=
+  match temp with
+  | none => 0
+  | some t => t + 273.15
+
+/-- Python `x or '?'` for a number -/
+def orUnknown (x : Rat) : Val := if x = 0 then .unknown else .num x
+
+def optOrUnknown : Option Rat → Val
+  | none => .unknown
+  | some x => orUnknown x
+
+def max3 (a b c : Rat) : Rat := max (max a b) c
+def min3 (a b c : Rat) : Rat := min (min a b) c
+/-- `sorted([a, b, c])[1]` -/
+def mid3 (a b c : Rat) : Rat := max (min a b) (min (max a b) c)
+
+/-- `_cif_dict()` without the version/date and the text loops (those are `atomLoop`, `adpLoop`, `toCif`) -/
+def cifDict (s : Src) : Except PyErr (List (String × Val)) := do
+  let dataName : Val := match s.titl with
+    | [] => .str "unknown"
+    | w :: _ => .str w.toLower
+  let sz : Val × Val × Val := match s.size with
+    | none => (.unknown, .unknown, .unknown)
+    | some z => (orUnknown (max3 z.dx z.dy z.dz), orUnknown (mid3 z.dx z.dy z.dz), orUnknown (min3 z.dx z.dy z.dz))
+  return [
+    ("data_name", dataName),
+    ("sum_formula", .str s.sumFormula),
+    ("formula_weight", .num s.formulaWeight),
+    ("cell_a", .num s.a), ("cell_b", .num s.b), ("cell_c", .num s.c),
+    ("cell_alpha", .num s.alpha), ("cell_beta", .num s.beta), ("cell_gamma", .num s.gamma),
+    ("cell_volume", .num s.volume),
+    ("cell_z", .num (zOf s.zerr)),
+    ("space_group", match s.spaceGroup with | none => .str "None" | some g => .str g),
+    ("temperature", orUnknown (round3 (tempKOf s.temp))),
+    ("crystal_size_max", sz.1), ("crystal_size_mid", sz.2.1), ("crystal_size_min", sz.2.2),
+    ("wavelength", orUnknown s.wavelength),
+    ("R1", optOrUnknown s.r1), ("wR2", optOrUnknown s.wr2), ("goodness_of_fit", optOrUnknown s.goof)]
+
+/-- the code before the repairs: attribute access on `None`, `[0]` on an empty list -/
+def cifDictLegacy (s : Src) : Except PyErr (List (String × Val)) := do
+  let dataName : Val ← match s.titl with
+    | [] => .error .IndexError
+    | w :: _ => pure (.str w.toLower)
+  let z ← match s.zerr with
+    | none => .error .AttributeError
+    | some z => pure z
+  let sz ← match s.size with
+    | none => .error .AttributeError
+    | some z => pure z
+  return [("data_name", dataName), ("cell_z", .num z), ("crystal_size_max", orUnknown (max3 sz.dx sz.dy sz.dz))]
+
+/-- keys the text parts of `_cif_dict` add (`version`, `creation_date`, the loops) -/
+def textKeys : List String :=
+  ["version", "creation_date", "symmetry_loop", "atom_loop_header", "atom_loop", "aniso_loop_header", "aniso_loop"]
+
+def lookup (k : String) : List (String × Val) → Option Val
+  | [] => none
+  | (k', v) :: t => if k' = k then some v else lookup k t
+
+/-- `Template.substitute` seen per placeholder: a placeholder without a key is a `KeyError` -/
+def substitute (tags : List String) (d : List (String × Val)) : Except PyErr Unit :=
+  tags.forM fun t => if (lookup t d).isSome ∨ t ∈ textKeys then pure () else .error .KeyError
+
+/-- the data items of the written CIF: (data name, value), through the template's `_name ${placeholder}` lines -/
+def cifItemsOf (pairs : List (String × String × Bool)) (d : List (String × Val)) : Except PyErr (List (String × Val)) :=
+  pairs.filterMapM fun p =>
+    if p.2.1 ∈ textKeys then pure none
+    else match lookup p.2.1 d with
+      | some v => pure (some (p.1, v))
+      | none => .error .KeyError
+
+/-- `to_cif` as far as the data items go -/
+def cifItems (s : Src) : Except PyErr (List (String × Val)) := do
+  let d ← cifDict s
+  substitute Extracted.C18.templateTags d
+  cifItemsOf Extracted.C18.templatePairs d
+
+/-- specification: what the CIF has to say about the structure model (TEMP in °C, `none` = no such instruction) -/
+def specItems (s : Src) : List (String × Val) := [
+  ("_cell_length_a", .num s.a), ("_cell_length_b", .num s.b), ("_cell_length_c", .num s.c),
+  ("_cell_angle_alpha", .num s.alpha), ("_cell_angle_beta", .num s.beta), ("_cell_angle_gamma", .num s.gamma),
+  ("_cell_formula_units_Z", .num (zOf s.zerr)),
+  ("_diffrn_radiation_wavelength", .num s.wavelength),
+  ("_chemical_formula_sum", .str s.sumFormula)]
+
+/-! ## (c) the loops -/
+
+structure AtomS where
+  name : String
+  resinum : Int
+  element : String
+  x : Rat
+  y : Rat
+  z : Rat
+  u11 : Rat
+  u22 : Rat
+  u33 : Rat
+  u23 : Rat
+  u13 : Rat
+  u12 : Rat
+  occ : Rat
+  part : Int
+  qpeak : Bool
+deriving DecidableEq, Repr
+
+structure Row where
+  label : String
+  element : String
+  x : Rat
+  y : Rat
+  z : Rat
+  aniso : Bool
+  occ : Rat
+  part : Int
+deriving DecidableEq, Repr
+
+structure AdpRow where
+  label : String
+  u : List Rat      -- U11 U22 U33 U23 U13 U12
+deriving DecidableEq, Repr
+
+/-- `Atom.fullname_short` -/
+def label (a : AtomS) : String := if a.resinum = 0 then a.name else a.name ++ "_" ++ toString a.resinum
+
+/-- `Atom.is_isotropic`: `not any(uvals[1:])` -/
+def isIso (a : AtomS) : Bool := !([a.u22, a.u33, a.u23, a.u13, a.u12].any fun u => u ≠ 0)
+
+/-- the code before the repair: `sum(uvals[1:]) == 0` -/
+def isIsoLegacy (a : AtomS) : Bool := a.u22 + a.u33 + a.u23 + a.u13 + a.u12 = 0
+
+def rowOf (a : AtomS) : Row := ⟨label a, a.element, a.x, a.y, a.z, !isIso a, a.occ, a.part⟩
+def adpOf (a : AtomS) : AdpRow := ⟨label a, [a.u11, a.u22, a.u33, a.u23, a.u13, a.u12]⟩
+
+/-- `_atoms_data`: `for atom in atoms: if not atom.qpeak: lines.append(...)` -/
+def atomLoop (atoms : List AtomS) : List Row :=
+  atoms.foldl (fun lines a => if !a.qpeak then lines ++ [rowOf a] else lines) []
+
+/-- `_adp_data`: `if not atom.qpeak and not atom.is_isotropic: lines.append(...)` -/
+def adpLoop (atoms : List AtomS) : List AdpRow :=
+  atoms.foldl (fun lines a => if !a.qpeak && !isIso a then lines ++ [adpOf a] else lines) []
+
+/-- specification: an atom is anisotropic when one of U22 … U12 is given (non-zero) -/
+def specAniso (a : AtomS) : Bool := a.u22 ≠ 0 || a.u33 ≠ 0 || a.u23 ≠ 0 || a.u13 ≠ 0 || a.u12 ≠ 0
+
+/-- keys of `cifDict` -/
+def modelKeys : List String :=
+  ["data_name", "sum_formula", "formula_weight", "cell_a", "cell_b", "cell_c", "cell_alpha", "cell_beta", "cell_gamma",
+   "cell_volume", "cell_z", "space_group", "temperature", "crystal_size_max", "crystal_size_mid", "crystal_size_min",
+   "wavelength", "R1", "wR2", "goodness_of_fit"]
+
+def isOk {ε α} : Except ε α → Bool
+  | .ok _ => true
+  | .error _ => false
+
+/-- the value the written CIF gives for a data name (`none`: no such item, or no file) -/
+def itemOf (s : Src) (name : String) : Option Val :=
+  match cifItems s with
+  | .ok l => lookup name l
+  | .error _ => none
+
+def specRow (a : AtomS) : Row := ⟨label a, a.element, a.x, a.y, a.z, specAniso a, a.occ, a.part⟩
+
+def specAtomLoop (atoms : List AtomS) : List Row := (atoms.filter fun a => !a.qpeak).map specRow
+
+def specAdpLoop (atoms : List AtomS) : List AdpRow := (atoms.filter fun a => !a.qpeak && specAniso a).map adpOf
 
 end Shelx.C18
